@@ -51,6 +51,21 @@ Theorem list_inputs_complete_thm :
   forall f, exists out, run the_code (li_of c) i f = (f, out, Ok) /\ In x out.
 Proof. exact (list_inputs_complete_gen the_code the_guards the_chk_inputs the_chk_stable). Qed.
 
+(* the four --list-inputs repairs are in the tree under test (obligation: a tree that loses one breaks here) and the full
+   statement is live without premises on the code *)
+Lemma the_repairs_present :
+  k_fix_lookup the_code = true /\ k_fix_constref the_code = true /\ k_fix_nonj2 the_code = true /\ k_fix_suptpl the_code = true.
+Proof. repeat split; reflexivity. Qed.
+
+Theorem list_inputs_complete_live :
+  forall c i, f_lc (c_flags c) = false -> rejected c = false -> ns_clash the_code c i = false ->
+  trig_py the_code c i = false -> trig_sup_refs the_code c = false ->
+  forall x, In x (all_influences the_code c i) -> is_config_input c x = false ->
+  forall f, exists out, run the_code (li_of c) i f = (f, out, Ok) /\ In x out.
+Proof.
+  destruct the_repairs_present as (H1 & H2 & H3 & H4). exact (list_inputs_complete_thm H1 H2 H3 H4).
+Qed.
+
 (* the argparse rule: --omit-serialization-support with --generate-support always is refused before anything happens *)
 Theorem rejected_does_nothing : forall c i f, rejected c = true -> run the_code c i f = (f, [], Rejected).
 Proof. intros c i f H. unfold run. unfold rejected in H. rewrite H. reflexivity. Qed.
@@ -88,12 +103,7 @@ Definition listed (c : cfg) (i : inputs) : list path := snd (fst (run the_code (
 Definition w_inputs_constref : inputs :=
   {| i_roots := [{| t_key := 1; t_ns := [[114]]; t_stem := [65]; t_kind := KStructure; t_src := [[114]; [65]]; t_deps := []; t_crefs := [2] |}];
      i_lookup := [w_type 2 108 68 []]; i_root_dir := [[114]] |}.
-Lemma list_inputs_constref_refuted_w : k_fix_constref the_code = false ->
-  let c := w_cfg SAsNeeded false None None in let x := [[108]; [68]] in
-  trig_constref w_inputs_constref = true /\ trig_lookup w_inputs_constref = false
-  /\ eff_trig_tpl the_code c w_inputs_constref = false /\ eff_trig_sup the_code c = false
-  /\ path_in x (influence_set the_code c w_inputs_constref) = true /\ path_in x (listed c w_inputs_constref) = false.
-Proof. intros H. vm_compute in H. first [discriminate H | vm_compute; repeat split; reflexivity]. Qed.
+
 
 (* non-vacuity: a real run that succeeds and creates type and support files and their directories; its listing *)
 Definition created (c : cfg) (i : inputs) (p : path) : option entry := fst (fst (run the_code (real_of c) i fs_empty)) p.
@@ -160,6 +170,16 @@ Proof. vm_compute. repeat split; reflexivity. Qed.
 Definition w_cfg_clash : cfg :=
   {| c_lang := w_lang; c_flags := w_flags SNever false; c_ext := None; c_stem := Some [65]; c_templates := None;
      c_support_templates := None; c_config_files := []; c_outdir := [[111]] |}.
+(* an invalid namespace file stem (`..`) is refused the same way, in every mode *)
+Definition w_cfg_badstem : cfg :=
+  {| c_lang := w_lang; c_flags := w_flags SNever false; c_ext := None; c_stem := Some [46; 46]; c_templates := None;
+     c_support_templates := None; c_config_files := []; c_outdir := [[111]] |}.
+Lemma example_bad_stem : k_stem_check the_code = true ->
+  run the_code (real_of w_cfg_badstem) w_inputs_plain fs_empty = (fs_empty, [], NsClash)
+  /\ snd (run the_code (lo_of w_cfg_badstem) w_inputs_plain fs_empty) = NsClash
+  /\ snd (fst (run the_code (li_of w_cfg_badstem) w_inputs_plain fs_empty)) = [].
+Proof. intros H. unfold run. cbn [real_of lo_of li_of]. unfold ns_clash. cbn [with_flags c_flags]. rewrite H. vm_compute. repeat split; reflexivity. Qed.
+
 Lemma example_ns_clash : k_ns_check the_code = true ->
   run the_code (real_of w_cfg_clash) w_inputs_plain fs_empty = (fs_empty, [], NsClash)
   /\ snd (run the_code (lo_of w_cfg_clash) w_inputs_plain fs_empty) = NsClash
